@@ -19,6 +19,7 @@ package master
 //@ # ---- leader election: the first alive replica ------------------------------------------------------
 //@ globalinv constants.ErrShardNotFound != nil && constants.ErrNoLiveReplica != nil
 //@ func replicaLeaderElector.ElectLeader
+//@   regions
 //@   prop C18
 //@   arith math
 //@   requires shardAssignment != nil && shardAssignment.Shards != nil && all(k, "models.ShardID", has(shardAssignment.Shards, k) ==> shardAssignment.Shards[k] != nil)
@@ -27,7 +28,7 @@ package master
 //@   ensures[leader_is_alive_replica] err == nil ==> (has(shardAssignment.Shards, shardID) && has(liveNodes, leader) && models.inReplicas(shardAssignment.Shards[shardID], leader))
 //@   ensures[first_alive] err == nil ==> exists(i, 0, len(shardAssignment.Shards[shardID].Replicas), shardAssignment.Shards[shardID].Replicas[i] == leader && forall(k, 0, i, !has(liveNodes, shardAssignment.Shards[shardID].Replicas[k])))
 //@   ensures[error_iff_no_alive_replica] has(shardAssignment.Shards, shardID) ==> ((err != nil) == forall(i, 0, len(shardAssignment.Shards[shardID].Replicas), !has(liveNodes, shardAssignment.Shards[shardID].Replicas[i])))
-//@   loop 1 invariant len(liveReplicaNodes.Replicas) >= 0
+//@   loop 1 invariant len(liveReplicaNodes.Replicas) >= 0 && rangeindex < len(replicas.Replicas)
 //@   loop 1 invariant len(liveReplicaNodes.Replicas) == 0 ==> forall(k, 0, rangeindex + 1, !has(liveNodes, replicas.Replicas[k]))
 //@   loop 1 invariant len(liveReplicaNodes.Replicas) > 0 ==> exists(i, 0, rangeindex + 1, replicas.Replicas[i] == liveReplicaNodes.Replicas[0] && has(liveNodes, replicas.Replicas[i]) && forall(k, 0, i, !has(liveNodes, replicas.Replicas[k])))
 //@ end
